@@ -123,7 +123,7 @@ def main():
                  "operation, function and data objects, caller-owned arrays), ties and exact boundaries, non-default options, input types "
                  "(python ints, integer-typed arrays, lists / tuples, integer-valued functions), quiet histories without monitor queries "
                  "between user calls, a few large / high-dimensional cases; "
-                 "152 independently seeded property-breaking changes (seeded/) and 53 own mutants are replayed by tools/selftest.py. "
+                 "179 independently seeded property-breaking changes (seeded/) and 53 own mutants are replayed by tools/selftest.py. "
                  "Every evidence file carries reach evidence (coverage.reach: executed lines of the functions anchored in properties.jsonl, sys.monitoring). "
                  "Known findings: /verif/known_findings.json.",
         "not_applicable": na,
